@@ -335,3 +335,15 @@ func copyTree(src, dst string) error {
 
 // VerifSnapshot forwards to the server's snapshot accessor.
 func (s *Server) VerifSnapshot() *server.VerifSnap { return s.S.VerifSnapshot() }
+
+// SendUDPNoWait sends a datagram without waiting for it to be processed (for
+// concurrent workloads; the caller waits for the handled counter afterwards).
+func (s *Server) SendUDPNoWait(b []byte) error {
+	c, err := net.DialUDP("udp", nil, &net.UDPAddr{IP: net.IPv4(127, 0, 0, 1), Port: int(s.UDP)})
+	if err != nil {
+		return err
+	}
+	defer c.Close()
+	_, err = c.Write(b)
+	return err
+}
